@@ -82,3 +82,12 @@ Theorem c12_tolerated_address_spacing : forall v w d, enc_addr_list v w -> Ok na
 Proof. exact ok_opt_addresses. Qed.
 Check c12_tolerated_address_spacing : forall v w d, enc_addr_list v w -> Ok native_call env rk (Ref f_rfc3501_x_opt_addresses DSame) d w v any.
 Print Assumptions c12_tolerated_address_spacing.
+
+(* the functions and closures that Natives.v models by hand are, token for token, the ones the models were written for *)
+From TI Require NativeSources.
+Theorem c12_hand_models_match_source :
+  gen_native_fns = NativeSources.modelled_fn_sources /\ gen_native_actions = NativeSources.modelled_action_sources.
+Proof. exact NativeSources.hand_models_match_source_lemma. Qed.
+Check c12_hand_models_match_source :
+  gen_native_fns = NativeSources.modelled_fn_sources /\ gen_native_actions = NativeSources.modelled_action_sources.
+Print Assumptions c12_hand_models_match_source.
